@@ -37,11 +37,14 @@ pub(crate) fn add(ctx: &mut TulispContext) {
     intern_set_func!(ctx, mul, "*");
 
     fn div(ctx: &mut TulispContext, rest: &TulispObject) -> Result<TulispObject, Error> {
-        let mut iter = rest.base_iter();
+        // Evaluate every argument exactly once, then check the divisors.
+        let values = ctx.eval_each(rest)?;
+        let mut iter = values.base_iter();
+        let Some(mut result) = iter.next() else {
+            return Ok(values);
+        };
         // Skip the first element, that can be zero.
-        iter.next();
-        while let Some(ele) = iter.eval_next(ctx) {
-            let ele = ele?;
+        for ele in values.base_iter().skip(1) {
             if *ele.inner_ref() == TulispValue::from(0)
                 || *ele.inner_ref() == TulispValue::from(0.0)
             {
@@ -51,7 +54,10 @@ pub(crate) fn add(ctx: &mut TulispContext) {
                 ));
             }
         }
-        reduce_with(ctx, rest, binary_ops!(std::ops::Div::div))
+        for ele in iter {
+            result = binary_ops!(std::ops::Div::div)(&result, &ele)?;
+        }
+        Ok(result)
     }
     intern_set_func!(ctx, div, "/");
 
